@@ -93,6 +93,7 @@ class Tracer:
         self.events = []                # (kind, relpath) of every primitive, in order
         self.sites = []                 # (sitekind, relpath) fault sites passed, in order
         self.fd_path = {}
+        self.on_flock_wait = None       # set by the thread scheduler: called when a flock would block
         self.sort_listdir = sort_listdir
         self._depth = threading.local()
         self._saved = None
@@ -207,6 +208,16 @@ class Tracer:
             self.fd_path[fd] = r
             self.event("mkTmp", r)
             return fd
+        if flags & (os.O_CREAT | os.O_WRONLY | os.O_RDWR | os.O_TRUNC) and not self.is_tmp(r) and \
+                r not in ("hashstore.yaml", "python_client.log"):
+            # a permanent path created or opened for writing through a raw descriptor: an in-place write
+            existed = os.path.exists(path)
+            self.site("openWrite", r)
+            fd = self._saved["os.open"](path, flags, mode, *a, **k)
+            self.fd_path[fd] = r
+            if not existed or flags & os.O_TRUNC:
+                self.event("copy", r)
+            return fd
         return self._saved["os.open"](path, flags, mode, *a, **k)
 
     def _open(self, file, mode="r", *a, **k):
@@ -235,6 +246,15 @@ class Tracer:
         r = self.fd_path.get(fd if isinstance(fd, int) else fd.fileno())
         if r is not None:
             self.site("flock", r)
+        import fcntl as _fcntl
+        if self.on_flock_wait is not None and r is not None and (op & (_fcntl.LOCK_EX | _fcntl.LOCK_SH)) and not (op & _fcntl.LOCK_NB):
+            # under the thread scheduler a blocking flock must not block the process: the holder may be a worker
+            # parked at a scheduling point. Try without blocking; tell the scheduler when the file is held.
+            while True:
+                try:
+                    return self._saved["fcntl.flock"](fd, op | _fcntl.LOCK_NB)
+                except BlockingIOError:
+                    self.on_flock_wait(r)
         return self._saved["fcntl.flock"](fd, op)
 
     def _listdir(self, path="."):
